@@ -5,10 +5,15 @@
 package main
 
 import (
+	"errors"
+	"fmt"
+	"os"
 	"runtime/debug"
 	"sort"
 	"strconv"
 	"strings"
+	"sync/atomic"
+	"time"
 
 	"github.com/richardwilkes/toolbox/collection/quadtree"
 	"github.com/richardwilkes/toolbox/xmath"
@@ -65,8 +70,102 @@ func tf(b bool) string {
 	return "F"
 }
 
+// scribble overwrites a slice the library returned (and appends to it): a result that aliases internal storage would
+// corrupt the tree, which the following comparison and every later line would show.
+func scribble[T xmath.Numeric](l []*nd[T]) {
+	bogus := &nd[T]{id: 999999}
+	for i := range l {
+		l[i] = bogus
+	}
+	if cap(l) > len(l) {
+		l = l[:cap(l)]
+		for i := range l {
+			l[i] = bogus
+		}
+	}
+}
+
 func (t *tree[T]) state() string {
-	return "n=" + strconv.Itoa(t.q.Size()) + " all=" + ids(t.q.All())
+	all := t.q.All()
+	s := "n=" + strconv.Itoa(t.q.Size()) + " all=" + ids(all)
+	scribble(all)
+	if again := "n=" + strconv.Itoa(t.q.Size()) + " all=" + ids(t.q.All()); again != s {
+		return s + " ALIASED:" + again
+	}
+	return s
+}
+
+// oddMatcher is a matcher that panics (in several ways) on one id or answers inconsistently.
+type oddMatcher[T xmath.Numeric] struct {
+	mode  string
+	id    int
+	calls int
+}
+
+var errSentinel = errors.New("matcher failed")
+
+func (m *oddMatcher[T]) Matches(n *nd[T]) bool {
+	m.calls++
+	if m.mode == "flip" {
+		return m.calls%2 == 1
+	}
+	if n.id == m.id || m.id < 0 {
+		switch m.mode {
+		case "pstring":
+			panic("matcher panic")
+		case "perror":
+			panic(errSentinel)
+		case "pruntime":
+			var arr []int
+			_ = arr[n.id+1]
+		case "pnilptr":
+			var p *nd[T]
+			_ = p.id
+		case "pnil":
+			panic(nil)
+		}
+	}
+	return n.id%2 == 0
+}
+
+// oddProbe runs the eight Matched queries with an odd matcher, each call recovered separately.  What the calls return
+// or whether they panic is not judged (the property does not say in which order a matcher is consulted); judged is
+// that the answers stay within the unmatched answers and — by the lines that follow — that the tree is unharmed.
+func (t *tree[T]) oddProbe(mode string, id int, p geom.Point[T], r geom.Rect[T]) string {
+	q := &t.q
+	sub := func(found []*nd[T], all []*nd[T]) bool {
+		have := map[*nd[T]]int{}
+		for _, o := range all {
+			have[o]++
+		}
+		for _, o := range found {
+			have[o]--
+			if have[o] < 0 {
+				return false
+			}
+		}
+		return true
+	}
+	bad := ""
+	try := func(name string, f func() bool) {
+		defer func() { _ = recover() }()
+		if !f() {
+			bad += " " + name
+		}
+	}
+	nm := func() *oddMatcher[T] { return &oddMatcher[T]{mode: mode, id: id} }
+	try("FindMatchedContainsPoint", func() bool { return sub(q.FindMatchedContainsPoint(nm(), p), q.FindContainsPoint(p)) })
+	try("FindMatchedIntersects", func() bool { return sub(q.FindMatchedIntersects(nm(), r), q.FindIntersects(r)) })
+	try("FindMatchedContainsRect", func() bool { return sub(q.FindMatchedContainsRect(nm(), r), q.FindContainsRect(r)) })
+	try("FindMatchedContainedByRect", func() bool { return sub(q.FindMatchedContainedByRect(nm(), r), q.FindContainedByRect(r)) })
+	try("MatchedContainsPoint", func() bool { return !q.MatchedContainsPoint(nm(), p) || q.ContainsPoint(p) })
+	try("MatchedIntersects", func() bool { return !q.MatchedIntersects(nm(), r) || q.Intersects(r) })
+	try("MatchedContainsRect", func() bool { return !q.MatchedContainsRect(nm(), r) || q.ContainsRect(r) })
+	try("MatchedContainedByRect", func() bool { return !q.MatchedContainedByRect(nm(), r) || q.ContainedByRect(r) })
+	if bad != "" {
+		return "FAIL matched answer outside the unmatched answer:" + bad
+	}
+	return "done"
 }
 
 // obj returns the object with that id (one object per id and history: re-inserting an id stores the same pointer
@@ -101,21 +200,39 @@ func (t *tree[T]) run(f []string) string {
 	case f[0] == "thr" && len(f) == 2:
 		t.q.Threshold = hx.Atoi(f[1])
 		return t.state()
+	case f[0] == "state" && len(f) == 1:
+		return t.state()
+	case f[0] == "pprobe" && len(f) == 9:
+		return t.oddProbe(f[1], hx.Atoi(f[2]), geom.NewPoint(num(f[3]), num(f[4])), geom.NewRect(num(f[5]), num(f[6]), num(f[7]), num(f[8])))
 	case f[0] == "probe" && len(f) == 9:
 		p := geom.NewPoint(num(f[1]), num(f[2]))
 		r := geom.NewRect(num(f[3]), num(f[4]), num(f[5]), num(f[6]))
 		m := matcher[T]{mod: hx.Atoi(f[7]), rem: hx.Atoi(f[8])}
 		q := &t.q
-		return strings.Join([]string{
-			tf(q.ContainsPoint(p)), ids(q.FindContainsPoint(p)),
-			tf(q.MatchedContainsPoint(m, p)), ids(q.FindMatchedContainsPoint(m, p)),
-			tf(q.Intersects(r)), ids(q.FindIntersects(r)),
-			tf(q.MatchedIntersects(m, r)), ids(q.FindMatchedIntersects(m, r)),
-			tf(q.ContainsRect(r)), ids(q.FindContainsRect(r)),
-			tf(q.MatchedContainsRect(m, r)), ids(q.FindMatchedContainsRect(m, r)),
-			tf(q.ContainedByRect(r)), ids(q.FindContainedByRect(r)),
-			tf(q.MatchedContainedByRect(m, r)), ids(q.FindMatchedContainedByRect(m, r)),
+		var got [][]*nd[T]
+		keep := func(l []*nd[T]) string {
+			got = append(got, l)
+			return ids(l)
+		}
+		out := strings.Join([]string{
+			tf(q.ContainsPoint(p)), keep(q.FindContainsPoint(p)),
+			tf(q.MatchedContainsPoint(m, p)), keep(q.FindMatchedContainsPoint(m, p)),
+			tf(q.Intersects(r)), keep(q.FindIntersects(r)),
+			tf(q.MatchedIntersects(m, r)), keep(q.FindMatchedIntersects(m, r)),
+			tf(q.ContainsRect(r)), keep(q.FindContainsRect(r)),
+			tf(q.MatchedContainsRect(m, r)), keep(q.FindMatchedContainsRect(m, r)),
+			tf(q.ContainedByRect(r)), keep(q.FindContainedByRect(r)),
+			tf(q.MatchedContainedByRect(m, r)), keep(q.FindMatchedContainedByRect(m, r)),
 		}, " ")
+		// aliasing: overwrite every returned slice, then the same queries must answer the same
+		before := ids(q.FindIntersects(r)) + "/" + ids(q.FindContainsPoint(p)) + "/" + ids(q.All())
+		for _, l := range got {
+			scribble(l)
+		}
+		if after := ids(q.FindIntersects(r)) + "/" + ids(q.FindContainsPoint(p)) + "/" + ids(q.All()); after != before {
+			return out + " ALIASED"
+		}
+		return out
 	}
 	return "bad-op"
 }
@@ -125,7 +242,23 @@ type qtArea struct {
 	tf *tree[float64]
 }
 
+var busySince atomic.Int64 // unix nanoseconds at which the current line started, 0 when idle
+
+// watchdog ends the process when one line runs for more than 10 s (a looping mutant), so that the driver of the check
+// can attribute the death to that line within the quick-tier budget.
+func watchdog() {
+	for {
+		time.Sleep(500 * time.Millisecond)
+		if t := busySince.Load(); t != 0 && time.Since(time.Unix(0, t)) > 10*time.Second {
+			fmt.Fprintln(os.Stderr, "watchdog: one operation ran for more than 10 s")
+			os.Exit(3)
+		}
+	}
+}
+
 func (a *qtArea) Run(line string) string {
+	busySince.Store(time.Now().UnixNano())
+	defer busySince.Store(0)
 	f := strings.Fields(line)
 	if len(f) == 0 {
 		return "bad-op"
@@ -155,6 +288,10 @@ func (a *qtArea) Run(line string) string {
 }
 
 // ---------------------------------------------------------------------------------------------- generator
+
+// thrValues are the values the public Threshold field is set to in mid-history: below MinQuadTreeThreshold (0, ±1, 3,
+// negative, MinInt: all mean 64), at and just above it, two-digit values, around the default, and MaxInt.
+var thrValues = []int{0, 1, -1, -7, 3, 4, 5, 7, 10, 12, 63, 64, 65, 9223372036854775807, -9223372036854775808}
 
 type grect [4]int64 // grid units
 
@@ -282,7 +419,12 @@ func (h *hist) mutation() {
 	case c < 96:
 		h.out("reorg")
 	case c < 98:
-		h.out("thr " + strconv.Itoa(hx.Pick(r, []int{0, 3, 4, 5, 7, 64})))
+		h.out("thr " + strconv.Itoa(hx.Pick(r, thrValues)))
+		if r.Bool() { // an operation right after the configuration change
+			id := r.Intn(len(h.rects))
+			h.insID(id)
+			h.in = append(h.in, id)
+		}
 	default:
 		h.out("clear")
 		h.in = h.in[:0]
@@ -307,63 +449,120 @@ func (h *hist) coverProbe(regions []grect) {
 	h.out("probe " + h.num(px) + " " + h.num(py) + " " + h.rectWords(q) + " " + strconv.Itoa(mod) + " " + strconv.Itoa(r.Intn(mod)))
 }
 
+// oddProbe: a query round with a panicking or inconsistent matcher, then the state and a normal probe.
+func (h *hist) oddProbe() {
+	r := h.r
+	var base grect
+	if len(h.rects) > 0 {
+		base = hx.Pick(r, h.rects)
+	}
+	px, py := gx.PointNear(r, [4]int64(base))
+	q := grect{base[0] - 1, base[1] - 1, base[2] + int64(r.Range(0, 12)), base[3] + int64(r.Range(0, 12))}
+	if r.Bool() {
+		q = grect{-50, -50, 200, 200}
+	}
+	id := r.Intn(len(h.rects) + 1)
+	if r.Chance(1, 4) {
+		id = -1 // panic on every call
+	}
+	mode := hx.Pick(r, []string{"pstring", "perror", "pruntime", "pnilptr", "pnil", "flip"})
+	h.out("pprobe " + mode + " " + strconv.Itoa(id) + " " + h.num(px) + " " + h.num(py) + " " + h.rectWords(q))
+	h.out("state")
+	h.probe()
+}
+
 func (h *hist) insID(id int) { h.out("ins " + strconv.Itoa(id) + " " + h.rectWords(h.rects[id])) }
 func (h *hist) rmID(id int)  { h.out("rm " + strconv.Itoa(id) + " " + h.rectWords(h.rects[id])) }
 
-// drain generates a history that leaves lazily kept structure behind: a frame fixes the root to S x S, many small
-// rectangles are packed into one quadrant (one or two levels deep) so that it is subdivided, then all of them — or
-// everything in the tree — are removed with Remove and NO Reorganize/Clear, while rectangles covering that quadrant,
-// its parent, the root and everything are probed with all sixteen queries.  Also: nodes outside the root inserted and
-// removed again (emptied outside list), and nodes straddling the centre lines removed while the children stay
-// populated (emptied root contents above non-empty children).
-func (h *hist) drain(thr int) {
+// drain generates a history that builds a deep tree and then takes it apart group by group with Remove and NO
+// Reorganize/Clear, so that lazily kept structure stays behind.  A frame fixes the root to S x S.  Groups of nodes:
+//   - tight clusters: threshold+1 … threshold+3 unit (or smaller region) squares on the same or adjacent cells; they
+//     force subdivision all the way down (4 to 6 levels for S = 16 … 64, 60 levels for the huge integer root);
+//   - a packed quadrant (many small rectangles spread over one quadrant or a quadrant of a quadrant);
+//   - singles: one or two nodes per quadrant, held directly by shallow quadrants (the siblings of the deep ones);
+//   - straddlers on the centre lines (held by the root itself) and outsiders beyond the root (outside list).
+// All groups are inserted in random order, optionally rebuilt once by Reorganize, then removed group by group in random
+// group order — so that quadrants are emptied level by level in every order: deep subtree first (emptied but still
+// subdivided quadrant), or its shallow siblings first (populated grandchildren below a quadrant with empty contents),
+// root contents first, outside list first, everything — with rectangles covering each region / the root / everything
+// probed by all sixteen queries in between, and the structure regrown afterwards.
+func (h *hist) drain(thr int, kind string) {
 	r := h.r
 	S := int64(16) << uint(r.Intn(3)) // 16, 32, 64 grid units
+	if kind == "i" && r.Chance(1, 6) {
+		S = 1 << 60 // a huge root above unit squares: huge and tiny together
+	}
 	eff := thr
 	if eff < 4 {
 		eff = 64
 	}
-	frame := []grect{{0, S - 1, 1, 1}, {S - 1, 0, 1, 1}, {S - 1, S - 1, 1, 1}}
-	// the packed region: a quadrant of the root or a quadrant of a quadrant
-	size := S / 2
-	rx, ry := int64(r.Intn(2))*size, int64(r.Intn(2))*size
-	regions := []grect{{rx, ry, size, size}, {0, 0, S, S}, {-S, -S, 3 * S, 3 * S}}
-	if r.Bool() {
-		size /= 2
-		rx += int64(r.Intn(2)) * size
-		ry += int64(r.Intn(2)) * size
-		regions = append(regions, grect{rx, ry, size, size})
-	}
-	if rx+size == S && ry+size == S { // keep the frame's far corner out of the packed region
-		frame[2] = grect{S - 1, S/2 - 1, 1, 1}
-		if ry+size > S/2-1 && ry <= S/2-1 && rx+size == S {
-			frame[2] = grect{S/2 - 1, S - 1, 1, 1}
+	frame := []grect{{0, S - 1, 1, 1}, {S - 1, 0, 1, 1}}
+	regions := []grect{{0, 0, S, S}, {-S / 2, -S / 2, 2 * S, 2 * S}}
+	for qx := int64(0); qx < 2; qx++ {
+		for qy := int64(0); qy < 2; qy++ {
+			regions = append(regions, grect{qx * S / 2, qy * S / 2, S / 2, S / 2})
 		}
 	}
 	h.rects = append(h.rects[:0], frame...)
-	npack := r.Range(eff+1, eff*3+4)
-	for i := 0; i < npack; i++ {
-		w, hh := int64(r.Range(1, 2)), int64(r.Range(1, 2))
-		if w > size {
-			w = size
+	var groups [][2]int
+	group := func(gen func()) {
+		lo := len(h.rects)
+		gen()
+		if len(h.rects) > lo {
+			groups = append(groups, [2]int{lo, len(h.rects)})
 		}
-		if hh > size {
-			hh = size
+	}
+	cell := func() (int64, int64) { // a cell well inside the root, away from the frame
+		return int64(r.Range(1, 13)) * (S / 16), int64(r.Range(1, 13)) * (S / 16)
+	}
+	for c := r.Range(1, 3); c > 0; c-- { // tight clusters
+		cx, cy := cell()
+		cx += int64(r.Intn(3))
+		cy += int64(r.Intn(3))
+		group(func() {
+			for i := r.Range(eff+1, eff+3); i > 0; i-- {
+				h.rects = append(h.rects, grect{cx + int64(r.Intn(2)), cy + int64(r.Intn(2)), 1, 1})
+			}
+		})
+		sz := int64(4)
+		regions = append(regions, grect{cx - cx%sz, cy - cy%sz, sz, sz}, grect{cx, cy, 2, 2})
+	}
+	if S <= 64 && r.Bool() { // a packed quadrant
+		size := S / 2
+		rx, ry := int64(r.Intn(2))*size, int64(r.Intn(2))*size
+		if r.Bool() {
+			size /= 2
+			rx += int64(r.Intn(2)) * size
+			ry += int64(r.Intn(2)) * size
 		}
-		h.rects = append(h.rects, grect{rx + int64(r.Intn(int(size-w+1))), ry + int64(r.Intn(int(size-hh+1))), w, hh})
+		regions = append(regions, grect{rx, ry, size, size})
+		group(func() {
+			for i := r.Range(eff+1, eff*2+4); i > 0; i-- {
+				w, hh := int64(r.Range(1, 2)), int64(r.Range(1, 2))
+				h.rects = append(h.rects, grect{rx + int64(r.Intn(int(size-w+1))), ry + int64(r.Intn(int(size-hh+1))), w, hh})
+			}
+		})
 	}
-	firstPack, endPack := len(frame), len(h.rects)
-	// straddlers (stay in the root's own contents) and strangers outside the root
-	nstr := r.Range(0, 3)
-	for i := 0; i < nstr; i++ {
-		h.rects = append(h.rects, grect{S/2 - 1, S/2 - 1 - int64(r.Intn(2)), 2, 2})
-	}
-	endStr := len(h.rects)
-	nout := r.Range(0, 3)
-	for i := 0; i < nout; i++ {
-		h.rects = append(h.rects, grect{S + int64(r.Range(1, 9)), int64(r.Range(-9, int(S))), int64(r.Range(1, 3)), int64(r.Range(1, 3))})
-	}
-	endOut := len(h.rects)
+	group(func() { // singles, directly held by shallow quadrants
+		for qx := int64(0); qx < 2; qx++ {
+			for qy := int64(0); qy < 2; qy++ {
+				for i := r.Range(0, 2); i > 0; i-- {
+					w := S/4 + 1 // too big for a quadrant of the quadrant
+					h.rects = append(h.rects, grect{qx*S/2 + int64(r.Intn(int(S/2-w))), qy*S/2 + int64(r.Intn(int(S/2-w))), w, w})
+				}
+			}
+		}
+	})
+	group(func() { // straddlers
+		for i := r.Range(0, 3); i > 0; i-- {
+			h.rects = append(h.rects, grect{S/2 - 1, S/2 - 1 - int64(r.Intn(2)), 2, 2})
+		}
+	})
+	group(func() { // outsiders
+		for i := r.Range(0, 3); i > 0; i-- {
+			h.rects = append(h.rects, grect{S + int64(r.Range(1, 9)), int64(r.Range(-9, 9)), int64(r.Range(1, 3)), int64(r.Range(1, 3))})
+		}
+	})
 	for id := range frame {
 		h.insID(id)
 	}
@@ -380,47 +579,86 @@ func (h *hist) drain(thr int) {
 		return v
 	}
 	maybe := func() {
-		if r.Chance(1, 5) {
+		if r.Chance(1, 6) {
 			h.coverProbe(regions)
 		}
 	}
-	for _, id := range order(firstPack, endOut) {
+	for _, id := range order(len(frame), len(h.rects)) {
 		h.insID(id)
 		maybe()
 	}
 	if r.Chance(1, 3) && eff != 64 {
-		h.out("reorg") // rebuild once while everything is in: the quadrant is subdivided by the re-insertion
+		h.out("reorg") // rebuild once while everything is in: subdivision by re-insertion
 	}
 	h.coverProbe(regions)
-	// drain: packed first (random order), probing in between and after
-	phases := [][2]int{{firstPack, endPack}}
-	rest := [][2]int{{endPack, endStr}, {endStr, endOut}, {0, firstPack}}
-	for _, k := range order(0, len(rest)) {
-		if r.Chance(2, 3) {
-			phases = append(phases, rest[k])
+	h.probe()
+	groups = append(groups, [2]int{0, len(frame)})
+	for _, g := range order(0, len(groups)) {
+		if r.Chance(1, 6) {
+			continue // this group stays
 		}
-	}
-	if r.Chance(1, 4) { // sometimes the straddlers go first: emptied root contents above populated children
-		phases[0], phases[len(phases)-1] = phases[len(phases)-1], phases[0]
-	}
-	for _, ph := range phases {
-		for _, id := range order(ph[0], ph[1]) {
+		ph := groups[g]
+		ids := order(ph[0], ph[1])
+		if r.Chance(1, 5) && len(ids) > 1 {
+			ids = ids[:len(ids)-1] // all but one
+		}
+		for _, id := range ids {
 			h.rmID(id)
 			maybe()
 		}
-		for k := 0; k < 4; k++ {
+		if r.Chance(1, 4) {
+			h.rmID(ids[0]) // a failed remove: Size must not move
+		}
+		for k := 0; k < 3; k++ {
 			h.coverProbe(regions)
 		}
 		h.probe()
+		if r.Chance(1, 5) {
+			h.oddProbe()
+		}
 	}
-	// life goes on after the drain: a few inserts into the emptied structure
-	for k := r.Range(0, 4); k > 0; k-- {
+	// regrow: inserts into the emptied structure, then possibly a rebuild
+	for k := r.Range(0, 8); k > 0; k-- {
 		h.insID(r.Intn(len(h.rects)))
+		h.coverProbe(regions)
+	}
+	if r.Chance(1, 3) {
+		h.out("reorg")
 		h.coverProbe(regions)
 	}
 }
 
-func (a *qtArea) Gen(r *hx.Rng, n int, _ string, emit func(string)) {
+// big generates a history around a collection-size threshold (12, 16/17, 32/33, 64/65/66, 128/129, 256+, 1000+ stored
+// nodes): fast paths for small n, the default threshold 64 and growth policies sit there.
+func (h *hist) big(tier string) {
+	r := h.r
+	sizes := []int{12, 16, 17, 32, 33, 63, 64, 65, 66, 128, 129, 257, 300}
+	if tier == "thorough" || r.Chance(1, 12) {
+		sizes = append(sizes, 1000, 1025)
+	}
+	n := hx.Pick(r, sizes)
+	h.rects = universe(r, n, 1<<20)
+	for id := 0; id < n; id++ {
+		h.insID(id)
+		if id >= n-3 || r.Chance(1, 40) {
+			h.probe()
+		}
+	}
+	h.out("reorg")
+	h.probe()
+	h.probe()
+	for _, id := range []int{0, n - 1, n / 2} { // first, last, middle
+		h.rmID(id)
+		h.probe()
+	}
+	for k := r.Range(0, 30); k > 0; k-- {
+		h.rmID(r.Intn(n))
+	}
+	h.probe()
+	h.oddProbe()
+}
+
+func (a *qtArea) Gen(r *hx.Rng, n int, tier string, emit func(string)) {
 	total := 0
 	for total < n {
 		h := &hist{r: r.Fork(), emit: emit}
@@ -437,9 +675,18 @@ func (a *qtArea) Gen(r *hx.Rng, n int, _ string, emit func(string)) {
 				thr = hx.Pick(h.r, []int{4, 5, thr}) // effective threshold 64 only now and then (long histories)
 			}
 			h.out("reset " + kind + " " + strconv.Itoa(thr))
-			h.drain(thr)
+			h.drain(thr, kind)
 			total += h.lines
 			continue
+		}
+		if h.r.Chance(1, 20) {
+			h.out("reset " + kind + " " + strconv.Itoa(hx.Pick(h.r, []int{0, 4, 5, 64, 12})))
+			h.big(tier)
+			total += h.lines
+			continue
+		}
+		if kind == "i" {
+			huge = 1 << 60
 		}
 		thr := hx.Pick(h.r, []int{0, 3, 4, 4, 5, 5, 64})
 		nrect := h.r.Range(1, 40)
@@ -455,6 +702,9 @@ func (a *qtArea) Gen(r *hx.Rng, n int, _ string, emit func(string)) {
 			for k := h.r.Range(0, 2); k > 0; k-- {
 				h.probe()
 			}
+			if h.r.Chance(1, 12) {
+				h.oddProbe()
+			}
 		}
 		h.probe()
 		total += h.lines
@@ -462,6 +712,7 @@ func (a *qtArea) Gen(r *hx.Rng, n int, _ string, emit func(string)) {
 }
 
 func main() {
-	debug.SetMaxStack(64 << 20) // a runaway split recursion dies quickly instead of after 1 GB
+	debug.SetMaxStack(16 << 20) // a runaway split recursion dies quickly instead of after 1 GB
+	go watchdog()
 	hx.Main(map[string]hx.Area{"quadtree": &qtArea{}, "floatscan": fsArea{}})
 }
